@@ -866,6 +866,15 @@ func main() {
 				plan.Faults = append(plan.Faults, randomFaults(ti, b, nr, rand.New(rand.NewSource(seed*1000+int64(ti))))...)
 			}
 		}
+		// one file per table: a child evaluating faults of one table does not have to parse all the others
+		per := map[int][]Fault{}
+		for _, ft := range plan.Faults {
+			per[ft.Table] = append(per[ft.Table], ft)
+		}
+		for ti := range plan.Tables {
+			b, _ := json.Marshal(Plan{Tables: plan.Tables, Keys: plan.Keys, Oids: plan.Oids, Faults: per[ti]})
+			realos.WriteFile(filepath.Join(dir, fmt.Sprintf("plan-%d.json", ti)), b, 0644)
+		}
 		out, _ := json.Marshal(plan)
 		realos.WriteFile(filepath.Join(dir, "plan.json"), out, 0644)
 		fmt.Printf("tables=%d faults=%d\n", len(plan.Tables), len(plan.Faults))
@@ -925,7 +934,12 @@ func main() {
 		var from, to int
 		fmt.Sscan(realos.Args[3], &from)
 		fmt.Sscan(realos.Args[4], &to)
-		pb, err := realos.ReadFile(filepath.Join(dir, "plan.json"))
+		// eval <dir> <from> <to> [table]: indices are global without a table, else relative to that table's file
+		pname := "plan.json"
+		if len(realos.Args) > 5 {
+			pname = "plan-" + realos.Args[5] + ".json"
+		}
+		pb, err := realos.ReadFile(filepath.Join(dir, pname))
 		if err != nil {
 			panic(err)
 		}
